@@ -14,6 +14,8 @@ pub mod c12;
 pub mod c19;
 pub mod c20;
 pub mod c23;
+pub mod c24;
+pub mod c26;
 pub mod c28;
 pub mod c31;
 pub mod c32;
@@ -44,6 +46,9 @@ pub fn property(id: &str, ctx: &Ctx) -> Option<Property> {
         "C21" => c20::property_c21(ctx),
         "C22" => c20::property_c22(ctx),
         "C23" => c23::property(ctx),
+        "C24" => c24::property_c24(ctx),
+        "C25" => c24::property_c25(ctx),
+        "C26" => c26::property(ctx),
         "C28" => c28::property(ctx),
         "C31" => c31::property(ctx),
         "C32" => c32::property(ctx),
@@ -56,4 +61,4 @@ pub fn property(id: &str, ctx: &Ctx) -> Option<Property> {
     })
 }
 
-pub const ALL: &[&str] = &["C01", "C02", "C04", "C05", "C06", "C07", "C08", "C09", "C10", "C11", "C12", "C19", "C20", "C21", "C22", "C23", "C28", "C31", "C32", "C33", "C34", "C35", "C36", "C38"];
+pub const ALL: &[&str] = &["C01", "C02", "C04", "C05", "C06", "C07", "C08", "C09", "C10", "C11", "C12", "C19", "C20", "C21", "C22", "C23", "C24", "C25", "C26", "C28", "C31", "C32", "C33", "C34", "C35", "C36", "C38"];
